@@ -202,9 +202,19 @@ Definition bind_ok (s : sigma) (G : gov) (defined : list cid) (c : cid) : bool :
   | Some r => forallb (fun n => Nat.eqb n c || negb (mref_opt_eqb (cs_meta (st_cls s n)) (Some r))) defined
   end.
 
+(* DefineClass: a JSONWizard class without an inner Meta must not find a Meta initialiser
+   left under its qualname by another class (F11: it would share that class's Meta object) *)
+Definition define_ok (s : sigma) (cd : cdef) : bool :=
+  if ci_wiz (cd_info cd) then
+    match ci_inner (cd_info cd) with
+    | Some _ => true
+    | None => match st_minit s (ci_qn (cd_info cd)) with None => true | Some _ => false end
+    end
+  else true.
+
 Definition safe_op (s : sigma) (G : gov) (defined : list cid) (o : op) : bool :=
   match o with
-  | ODefine _ => true
+  | ODefine cd => define_ok s cd
   | OBind c _ => bind_ok s G defined c
   | OLoad c attr _ =>
       match decl_of s c with
@@ -243,7 +253,7 @@ Fixpoint safe_from (s : sigma) (G : gov) (defined : list cid) (h : list op) : bo
   | o :: r => safe_op s G defined o && safe_from (fst (step s o)) (gstep s G o) (dstep defined o) r
   end.
 
-(* a history that stays outside the open regions F2 / F10 / F22 and binds Meta only before first use *)
+(* a history that stays outside the open regions F2 / F10 / F11 / F22 and binds Meta only before first use *)
 Definition safe_history (h : list op) : bool := safe_from init g0 [] h.
 
 (* ---------------------------------------------------------------- class families (C07) *)
